@@ -913,6 +913,7 @@ def main(argv):
                        'Alpaqa/Proofs/C10Remove.lean', 'Alpaqa/Proofs/C10Solve.lean',
                        'Alpaqa/Proofs/C10Anderson.lean', 'Alpaqa/Proofs/C10History.lean', 'Alpaqa/Proofs/C10Pivot.lean',
                        'Alpaqa/Proofs/C10Trunc.lean', 'Alpaqa/Proofs/C10Givens.lean', 'Alpaqa/Proofs/C10Dead.lean',
+                       'Alpaqa/Proofs/C10Eig.lean',
                        'Alpaqa/Proofs/Basic.lean',
                        'Driver/C10.lean'],
         harness_name='c10', harness_sources=[os.path.join(C.VERIF, 'harness', 'c10.cpp')],
